@@ -46,7 +46,7 @@ func FreeMode() bool { return os.Getenv("IONSIM_C18_MODE") == "free" }
 
 func (concurrent) Rule() string {
 	return "Per run index: a shared world (8 shared symbol tables in several versions, 0..3 shared Adjust()ed views, one ion.NewCatalog, " +
-		"V1SystemSymbolTable, 6 shared Go types) and 2..6 seeded caller tasks, each with its own Readers / Writers / Encoders / Decoders / " +
+		"V1SystemSymbolTable, 6 static shared Go types plus two dynamic struct types per index out of 16383 built with reflect.StructOf, a catalog that in 2 of 3 indices holds only a subset of the tables — version skew) and 2..6 seeded caller tasks, each with its own Readers / Writers / Encoders / Decoders / " +
 		"Marshal / Unmarshal calls: write a document through text, pretty or binary writers importing shared tables (or a fixed local " +
 		"table over them); read and decode streams whose local tables import the shared tables with smaller, equal, larger or absent " +
 		"max_id through the shared catalog (Adjust, FindExact/FindLatest, placeholder and append paths); Encode / Marshal* / Unmarshal / " +
@@ -95,6 +95,15 @@ func concWorld(r *prng.Rand) drive.CWorld {
 		t := r.Intn(len(w.Tables))
 		n := len(w.Tables[t].Symbols)
 		w.Views = append(w.Views, drive.CView{Table: t, MaxID: uint64(r.Intn(n + 4))})
+	}
+	if r.Chance(2, 3) {
+		// version skew: the shared catalog holds only a subset of the tables the streams were written against
+		w.CatTables = []int{}
+		for i := range w.Tables {
+			if r.Chance(3, 5) {
+				w.CatTables = append(w.CatTables, i)
+			}
+		}
 	}
 	return w
 }
@@ -164,6 +173,40 @@ func goTypeData(r *prng.Rand, typ int, text bool) []byte {
 	n := r.Range(1, 3)
 	for k := 0; k < n; k++ {
 		var v *model.Value
+		if typ >= drive.DynBase {
+			word := func() string { return ctxLocalTexts[r.Intn(len(ctxLocalTexts))] }
+			v = model.NewSeq(model.Struct)
+			for _, f := range drive.DynFields(typ) {
+				var fv *model.Value
+				switch f.Kind {
+				case "int":
+					fv = model.NewInt(int64(r.Intn(900)))
+				case "string":
+					fv = model.NewString(word())
+				case "symbol":
+					fv = model.NewSymbol(model.T(word()))
+				case "strings":
+					fv = model.NewSeq(model.List, model.NewString(word()), model.NewString(word()))
+				case "point", "ppoint":
+					fv = model.NewSeq(model.Struct, model.NewInt(int64(r.Intn(50))).Named(model.T("x")), model.NewInt(int64(r.Intn(50))).Named(model.T("y")))
+				case "map":
+					fv = model.NewSeq(model.Struct, model.NewInt(int64(r.Intn(9))).Named(model.T(word())))
+				case "bool":
+					fv = model.NewBool(r.Bool())
+				case "float":
+					fv = model.NewFloat(float64(r.Intn(64)) / 4)
+				case "bytes":
+					fv = model.NewLob(model.Blob, []byte(word()))
+				default:
+					fv = model.NewSeq(model.List, model.NewInt(1), model.NewSymbol(model.T(word())))
+				}
+				if r.Chance(7, 8) {
+					v.Kids = append(v.Kids, fv.Named(model.T(f.Tag)))
+				}
+			}
+			vals = append(vals, v)
+			continue
+		}
 		switch typ % drive.CTypeCount {
 		case 0:
 			v = model.NewSeq(model.Struct, model.NewInt(int64(r.Intn(50))).Named(model.T("x")), model.NewInt(int64(r.Intn(50))).Named(model.T("y")))
@@ -209,7 +252,13 @@ func concPlan(r *prng.Rand, n int) sim.ReadPlan {
 
 var concTableOps = []string{"string", "writeto", "find", "byid", "adjust", "builder", "lstfind", "exact", "latest", "token", "tokensid", "system"}
 
-func concTask(r *prng.Rand, w drive.CWorld, cat *model.Catalog) drive.CTask {
+func concTask(r *prng.Rand, w drive.CWorld, cat *model.Catalog, typePool []int) drive.CTask {
+	pickType := func() int {
+		if r.Bool() {
+			return typePool[r.Intn(len(typePool))]
+		}
+		return r.Intn(drive.CTypeCount)
+	}
 	switch r.Intn(9) {
 	case 0, 1: // write a document
 		o := gen.Swarm(r)
@@ -260,12 +309,12 @@ func concTask(r *prng.Rand, w drive.CWorld, cat *model.Catalog) drive.CTask {
 		return drive.CTask{Kind: kind, Data: out.Bytes, Plan: concPlan(r, len(out.Bytes))}
 	case 4: // encode Go values through an Encoder over a sink
 		return drive.CTask{Kind: "encode", Writer: concWriterKind(r), Imports: concImports(r, w), LSTSymbols: []string{"x", "y", "label", "id", "name", "tags", "pt", "attrs", "when", "amount", "raw", "sym", "any", "flag", "ratio", "big", "recs", "index", "sx", "text", "hello", "k9", "zed", "q_1", "é", "a b", "$ion", "a1", "a4", "b1", "dup", "c12", "d2"},
-			Type: r.Intn(drive.CTypeCount), ValSeed: r.Uint64(), Count: r.Range(1, 3)}
+			Type: pickType(), ValSeed: r.Uint64(), Count: r.Range(1, 3)}
 	case 5: // Marshal*
 		return drive.CTask{Kind: "marshal", Writer: concWriterKind(r), Imports: concImports(r, w), LSTSymbols: []string{"x", "y", "label", "id", "name", "tags", "pt", "attrs", "when", "amount", "raw", "sym", "any", "flag", "ratio", "big", "recs", "index", "sx", "text", "hello", "k9", "zed", "q_1", "é", "a b", "$ion", "a1", "a4", "b1", "dup", "c12", "d2"},
-			Type: r.Intn(drive.CTypeCount), ValSeed: r.Uint64(), Count: r.Range(1, 4)}
+			Type: pickType(), ValSeed: r.Uint64(), Count: r.Range(1, 4)}
 	case 6, 7: // Unmarshal / DecodeTo into shared types
-		typ := r.Intn(drive.CTypeCount)
+		typ := pickType()
 		data := goTypeData(r, typ, r.Chance(2, 3))
 		t := drive.CTask{Kind: "unmarshal", Data: data, Type: typ, Count: 3, Plan: concPlan(r, len(data)), Imports: concImports(r, w)}
 		if r.Chance(1, 3) {
@@ -299,8 +348,10 @@ func concGen(seed uint64, i int) concCase {
 	cs := concCase{World: w}
 	n := r.Range(2, 6)
 	tr := r.Fork()
+	// a small pool of dynamic struct types per run index, so that several tasks meet on a type nobody has used before
+	typePool := []int{drive.DynBase + 1 + tr.Intn(1<<14-1), drive.DynBase + 1 + tr.Intn(1<<14-1)}
 	for k := 0; k < n; k++ {
-		cs.Tasks = append(cs.Tasks, concTask(tr, w, cat))
+		cs.Tasks = append(cs.Tasks, concTask(tr, w, cat, typePool))
 	}
 	return cs
 }
